@@ -109,6 +109,7 @@ func refRecvBody(sc Scn, src, view fsmodel.Tree, srcDir string, res *RefRecvRes)
 		if sc.Progress {
 			lastV, finals := -1, 0
 			progress = func(n int, last bool) {
+				vrt.Gate("progress", nil) // user code: whatever may run concurrently can overtake here
 				mu.Lock()
 				defer mu.Unlock()
 				if finals > 0 && res.Progress == "" {
